@@ -93,7 +93,37 @@ pub fn gen_program(r: &mut Rng, o: &ProgOpts, st: &PushState) -> Vec<Item> {
         }
     }
     let n = 1 + r.below(14);
-    (0..n).map(|_| gen_prog_item(r, 3, o)).collect()
+    let mut prog: Vec<Item> = (0..n).map(|_| gen_prog_item(r, 3, o)).collect();
+    if o.focus.iter().any(|f| *f == "NAME.QUOTE") && r.chance(1, 3) {
+        // a quote that has to survive a gap: NAME.QUOTE, then 1..3 items that are not names (any registered
+        // instruction, NAME.* ones preferred, literals, lists without names), then a name. Bottom first.
+        let at = r.below(prog.len() as u64 + 1) as usize;
+        let mut frag = vec![Item::name(r.pick(&["a", "b", "x1", "foo"]).to_string())];
+        for _ in 0..1 + r.below(3) {
+            let it = match r.below(6) {
+                0 => Item::int(r.range(-3, 8) as i32),
+                1 => Item::list(vec![Item::int(1), Item::bool(true)]),
+                2 | 3 => {
+                    let c: Vec<&String> = o.names.iter().filter(|n| n.starts_with("NAME.") && *n != "NAME.QUOTE" && !is_rand(n)).collect();
+                    if c.is_empty() { Item::instruction("NOOP".to_string()) } else { Item::instruction((*r.pick(&c)).clone()) }
+                }
+                _ => {
+                    let n = pick_instr(r, o);
+                    if n == "NAME.QUOTE" || n.ends_with(".DEFINE") || n.starts_with("LIST.") || n.starts_with("CODE.") || n.starts_with("EXEC.") {
+                        Item::instruction("NAME.FLUSH".to_string())
+                    } else {
+                        Item::instruction(n)
+                    }
+                }
+            };
+            frag.push(it);
+        }
+        frag.push(Item::instruction("NAME.QUOTE".to_string()));
+        for (k, it) in frag.into_iter().enumerate() {
+            prog.insert(at + k, it);
+        }
+    }
+    prog
 }
 
 pub fn state_within_envelope(s: &PushState) -> bool {
@@ -191,7 +221,15 @@ fn outcome_str(o: &PushInterpreterState) -> &'static str {
 
 /// the documented accounting of a run, done by hand with repeated step() calls on a second state
 fn manual_run(iset: &mut InstructionSet, s: &mut PushState) -> (&'static str, i64) {
-    PushInterpreter::copy_to_code_stack(s);
+    // "first copies the program from the EXEC stack onto the CODE stack": done by hand, item by item, bottom first,
+    // so that the copy lies on top of CODE in the order it has on EXEC
+    let n = s.exec_stack.size();
+    for i in (0..n).rev() {
+        if let Some(it) = s.exec_stack.get(i) {
+            let it = it.clone();
+            s.code_stack.push(it);
+        }
+    }
     let icache = iset.cache();
     let limit = s.configuration.eval_push_limit as i64;
     let cap = s.configuration.growth_cap;
@@ -300,6 +338,80 @@ pub fn run_runs(seed: u64, tier: &str, out: &mut dyn FnMut(String)) {
             )),
             _ => out(format!("( run {} PANIC - - 0 - {} )", pre, nid)),
         }
+    }
+}
+
+/// `run` under a wall-clock limit that IS reached: limit 0 (every run stops at the first check) and a few
+/// milliseconds on a diverging program with an effectively unlimited step budget. The run's own outcome, final
+/// state and measured duration are reported together with the number of single steps after which a second,
+/// identically built state equals that final state (-1: never within the cap).
+pub fn run_timeouts(seed: u64, tier: &str, out: &mut dyn FnMut(String)) {
+    let names: Vec<String> = instruction_names()
+        .into_iter()
+        .filter(|n| !is_rand(n) && !exposes_ids(n) && !is_size_operand(n) && n != "EXEC.CMD")
+        .collect();
+    let ncase = if tier == "thorough" { 60 } else { 12 };
+    let mut iset = make_iset(false);
+    let mut iset2 = make_iset(false);
+    for case in 0..ncase {
+        let mut r = Rng::for_case(seed, "runt", case);
+        let mut st = fresh_state(&mut r, &names);
+        st.graph_stack.flush();
+        st.exec_stack.flush();
+        let limit_ms: u64 = if case % 2 == 0 { 0 } else { *r.pick(&[1u64, 2, 3, 5]) };
+        if case % 2 == 0 && case % 4 == 0 {
+            let o = ProgOpts { names: &names, clean: true, focus: &[], no_alloc: true };
+            for it in gen_program(&mut r, &o, &st) {
+                st.exec_stack.push(it);
+            }
+        } else {
+            // diverges without growing: the INTEGER on top changes at every iteration, so every reached state is distinct
+            st.exec_stack.push(Item::list(vec![Item::instruction("INTEGER.+".to_string()), Item::int(1)]));
+            st.exec_stack.push(Item::instruction("EXEC.Y".to_string()));
+            st.exec_stack.push(Item::int(case as i32));
+        }
+        st.configuration.eval_push_limit = 2_000_000_000;
+        st.configuration.growth_cap = 500;
+        st.configuration.eval_time_limit = limit_ms;
+        let pre = enc_state(&st);
+        let mut st2 = match parse_line(&pre).and_then(|v| dec_state(&v[0])) {
+            Some(s) => s,
+            None => continue,
+        };
+        let nid = next_node_id();
+        out(format!("#c runt {}", case));
+        let t0 = std::time::Instant::now();
+        let r1 = catch_unwind(AssertUnwindSafe(|| {
+            let o = PushInterpreter::run(&mut st, &mut iset);
+            (o, st)
+        }));
+        let elapsed_us = t0.elapsed().as_micros();
+        let (o, s1) = match r1 {
+            Ok(x) => x,
+            Err(_) => {
+                out(format!("( runt {} PANIC - 0 0 0 {} )", pre, nid));
+                continue;
+            }
+        };
+        let post = enc_state(&s1);
+        // stepping by hand until the same state is reached
+        PushInterpreter::copy_to_code_stack(&mut st2);
+        let icache = iset2.cache();
+        let mut k2: i64 = -1;
+        let cap = 3_000_000i64;
+        let mut k = 0i64;
+        let want_top = s1.int_stack.copy(0);
+        loop {
+            if st2.int_stack.copy(0) == want_top && st2.exec_stack.size() == s1.exec_stack.size() && enc_state(&st2) == post {
+                k2 = k;
+                break;
+            }
+            if k >= cap || PushInterpreter::step(&mut st2, &mut iset2, &icache) {
+                break;
+            }
+            k += 1;
+        }
+        out(format!("( runt {} {} {} {} {} {} {} )", pre, outcome_str(&o), post, k2, elapsed_us, limit_ms, nid));
     }
 }
 
